@@ -66,6 +66,7 @@ type Opts struct {
 	ResolveRefs   bool // substitute references by their targets, drop markers
 	RecordsAsMaps bool // records become maps keyed by their record type's keys; record types dropped
 	NumericArraysAsLists bool // typed numeric/bool arrays become lists of numbers (for value-level comparison)
+	FloatArrayNaNKindOnly bool // NaN elements of float arrays keep only quiet/signalling (text formats cannot carry payloads)
 }
 
 // ---------------------------------------------------------------------------
@@ -582,6 +583,18 @@ func Canon(log []Event, opts Opts) (doc *Node, err error) {
 }
 
 func transform(doc *Node, opts Opts) *Node {
+	if opts.FloatArrayNaNKindOnly {
+		var walk func(n *Node)
+		walk = func(n *Node) {
+			if n.Tag == "array" {
+				n.Val = normFloatArrayNaNs(n.Val)
+			}
+			for _, k := range n.Kids {
+				walk(k)
+			}
+		}
+		walk(doc)
+	}
 	if opts.RecordsAsMaps {
 		types := map[string][]*Node{}
 		var kids []*Node
@@ -811,4 +824,59 @@ func FindFirstDiffNodes(a, b *Node) (*Node, *Node) {
 		return a, b
 	}
 	return nil, nil
+}
+
+// normFloatArrayNaNs rewrites every NaN element of a float array value to a canonical quiet or signalling pattern.
+func normFloatArrayNaNs(val string) string {
+	parts := strings.SplitN(val, ":", 3)
+	if len(parts) != 3 {
+		return val
+	}
+	var w int
+	switch parts[0] {
+	case "f16":
+		w = 2
+	case "f32":
+		w = 4
+	case "f64":
+		w = 8
+	default:
+		return val
+	}
+	data, err := hex.DecodeString(parts[2])
+	if err != nil || len(data)%w != 0 {
+		return val
+	}
+	for i := 0; i+w <= len(data); i += w {
+		var v uint64
+		for b := 0; b < w; b++ {
+			v |= uint64(data[i+b]) << (8 * b)
+		}
+		var isNaN, quiet bool
+		var q, s uint64
+		switch w {
+		case 2:
+			isNaN = v&0x7f80 == 0x7f80 && v&0x7f != 0
+			quiet = v&0x40 != 0
+			q, s = 0x7fc0, 0x7fa0
+		case 4:
+			isNaN = v&0x7f800000 == 0x7f800000 && v&0x7fffff != 0
+			quiet = v&0x400000 != 0
+			q, s = 0x7fc00000, 0x7fa00000
+		case 8:
+			isNaN = v&0x7ff0000000000000 == 0x7ff0000000000000 && v&0xfffffffffffff != 0
+			quiet = v&0x8000000000000 != 0
+			q, s = 0x7ff8000000000000, 0x7ff4000000000000
+		}
+		if isNaN {
+			nv := s
+			if quiet {
+				nv = q
+			}
+			for b := 0; b < w; b++ {
+				data[i+b] = byte(nv >> (8 * b))
+			}
+		}
+	}
+	return parts[0] + ":" + parts[1] + ":" + hex.EncodeToString(data)
 }
